@@ -1707,7 +1707,10 @@ namespace awkward {
 
       ContentPtrVec contents;
       for (auto content : contents_) {
-        contents.push_back(content.get()->getitem_next(head,
+        // a field may be longer than the RecordArray; 'advanced' is as long as
+        // the records, so slice only the part of the field that belongs to them
+        ContentPtr trimmed = content.get()->getitem_range_nowrap(0, length());
+        contents.push_back(trimmed.get()->getitem_next(head,
                                                        emptytail,
                                                        advanced));
       }
